@@ -444,7 +444,7 @@ def _container(kind):
 def _run_toy(ctx, rng, key, ndig):
     from vf import toy
     t = toy.toy(*key)
-    curve, dom = sigs.toy_lib_curve(t)
+    curve, dom = sigs.toy_lib_curve_legacy(t) if sum(key) % 2 else sigs.toy_lib_curve(t)      # every second one: legacy affine Point as base point
     n = dom.n
     encs = list(sigs.ENCODINGS)
     i = 0
